@@ -1,3 +1,59 @@
-(* placeholder until the proofs are written *)
-From Coq Require Import ZArith.
-Theorem C01_placeholder : True. Proof. exact I. Qed.
+(* C01 - each request sent is the exact ISO-14229 encoding of the call's arguments.  Statements only.
+   The frame theorems are shared with C07 (`agrees`): inside the documented domain the builder's frame is exactly
+   sid :: [subfunction (+0x80 iff suppression is on)] ++ parameters in ISO order and width. *)
+From Coq Require Import ZArith List Bool String.
+From UDS Require Import Lib.Bytes Lib.ErrM Spec.IsoRequests Model.Message Model.Client Model.Services Model.Helpers
+  Model.MemLoc Model.Svc_Simple Model.Svc_Memory Model.Svc_Did Model.History Proofs.Bytes_lemmas Proofs.Client_lemmas
+  Proofs.C07_lemmas Proofs.C14_lemmas.
+Import ListNotations.
+Open Scope Z_scope.
+
+(* what reaches the wire for any request object: sid, subfunction with bit 7 set iff suppression is in force (only
+   for services that have a subfunction), then the data unchanged *)
+Theorem C01_wire : forall st s sub d r,
+  In s services -> 0 <= sub < 128 -> mk_request (Some s) (Some sub) false d = inr r ->
+  wire_payload st r = inr (apply_override (ov st)
+    (if s_sub s then s_sid s :: (if spr_on st then sub + 128 else sub) :: match d with Some x => x | None => [] end
+     else s_sid s :: match d with Some x => x | None => [] end)).
+Proof. exact wire_payload_spec. Qed.
+Print Assumptions C01_wire.
+
+(* that frame, and only it, is handed to the connection *)
+Theorem C01_sent_once : forall cfg st mk interp post now s f,
+  frame_of st mk = inr f ->
+  let '(_, _, _, _, tr) := single_request cfg st mk interp post now s in sent tr = [f].
+Proof. exact accepted_sends_frame. Qed.
+Print Assumptions C01_sent_once.
+
+(* big-endian fields of every width decode back (the independent decoder of an n-byte field is be_dec) *)
+Theorem C01_fields_decode : forall n v, 0 <= v < 256 ^ Z.of_nat n ->
+  be_dec (be_enc n v) = v /\ List.length (be_enc n v) = n /\ wf_bytes (be_enc n v).
+Proof. intros n v H. split; [apply be_dec_enc; exact H|]. split; [apply be_enc_length|apply be_enc_wf]. Qed.
+Print Assumptions C01_fields_decode.
+
+(* per service: see Props/C07.v (C07_change_session ... C07_write_data_by_identifier, C07_memory_requests); two of
+   them restated here in the form "in-domain => exact frame" *)
+Theorem C01_routine_control : forall st rid ct d, 0 <= rid <= 65535 -> 0 <= ct <= 127 ->
+  frame_of st (rc_make rid ct d)
+  = inr (apply_override (ov st) (49 :: (if spr_on st then ct + 128 else ct) :: be_enc 2 rid ++ match d with Some x => x | None => [] end)).
+Proof.
+  intros st rid ct d Hr Hc. pose proof (routine_agrees st rid ct d) as A. unfold iso_routine, in_u in A.
+  replace ((0 <=? rid) && (rid <=? 65535) && ((0 <=? ct) && (ct <=? 127))) with true in A
+    by (symmetry; apply andb_true_iff; split; apply andb_true_iff; split; apply Z.leb_le; apply Hr || apply Hc).
+  destruct A as (sid & hs & Hin & Hf). cbn in Hin.
+  repeat (destruct Hin as [Hin|Hin]; [try discriminate; injection Hin as ? ?; subst; exact Hf|]). contradiction.
+Qed.
+Print Assumptions C01_routine_control.
+
+Theorem C01_security_access : forall st k level data, 1 <= level <= 126 ->
+  frame_of st (sa_make k level data)
+  = inr (apply_override (ov st)
+      (39 :: (let sub := if k then 2 * ((level + 1) / 2) else 2 * ((level + 1) / 2) - 1 in if spr_on st then sub + 128 else sub) :: data)).
+Proof.
+  intros st k level data Hl. pose proof (security_agrees st k level data) as A. unfold iso_security in A.
+  replace ((1 <=? level) && (level <=? 126)) with true in A
+    by (symmetry; apply andb_true_iff; split; apply Z.leb_le; apply Hl).
+  destruct A as (sid & hs & Hin & Hf). cbn in Hin.
+  repeat (destruct Hin as [Hin|Hin]; [try discriminate; injection Hin as ? ?; subst; exact Hf|]). contradiction.
+Qed.
+Print Assumptions C01_security_access.
